@@ -266,3 +266,9 @@ package client
 //@   ensures [mode-mapped C01] res1 == nil ==> (sr.Request.(*gpb.SubscribeRequest_Subscribe).Subscribe.Mode == 1 ==> res0.Type == Once)
 //@     && (sr.Request.(*gpb.SubscribeRequest_Subscribe).Subscribe.Mode == 2 ==> res0.Type == Poll) && (sr.Request.(*gpb.SubscribeRequest_Subscribe).Subscribe.Mode == 0 ==> res0.Type == Stream)
 //@   ensures [one-index-path-per-subscription-in-order C01 C19] res1 == nil ==> (forall j int :: 0 <= j && j < len(res0.Queries) ==> view(res0.Queries[j]) == idxpath(sr.Request.(*gpb.SubscribeRequest_Subscribe).Subscribe.Subscription[j].Path, false))
+
+// Path equality is element-wise equality of equally long paths.
+//@ func (Path).Equal
+//@   props C01 C12
+//@   invariant 0: 0 <= x && x <= len(p) && len(p) == len(p2) && (forall j int :: 0 <= j && j < x ==> p[j] == p2[j])
+//@   ensures [equal-iff-same-elements C01] res0 <==> (len(p) == len(p2) && (forall j int :: 0 <= j && j < len(p) ==> p[j] == p2[j]))
